@@ -24,6 +24,7 @@ mod docgen;
 mod dupmap;
 mod obsv;
 mod oracle;
+mod renames;
 mod types;
 
 use docgen::{Arr, Forced, Gen, GenDoc, Kit, Params, shape_leaves};
@@ -68,7 +69,7 @@ fn case_json(b: &Built) -> J {
     })
 }
 
-fn run_single(run: &Run, b: &Built, chunk: usize, full: bool, crates: (bool, bool), only_ov: Option<oracle::OptVar>) {
+fn run_single(run: &Run, b: &Built, chunk: usize, full: bool, crates: (bool, bool), only_ov: Option<&[oracle::OptVar]>) {
     let cj = || case_json(b);
     let sc = SingleCase { doc: &b.doc, viol: &b.viol, decoys: &b.decoys, arrivals: &b.arrivals, intended: Some(&b.intended), chunk, only_ov };
     fn one<C: Crate>(run: &Run, b: &Built, sc: &SingleCase, cj: &dyn Fn() -> J, full: bool) {
@@ -151,11 +152,12 @@ fn random_params(rng: &mut Rng) -> Params {
         p_decoy: if rng.chance(1, 5) { 3 } else { 0 },
         shuffle: rng.bool(),
         kit: if rng.chance(2, 3) { Kit::Random } else { Kit::None },
+        big: rng.chance(1, 4),
     };
     // Decoy keys only in alias-free documents: an anchored mapping carries its decoy key to every
     // alias / merge use, which the per-path decoy bookkeeping does not follow.
     if style == 0 || p.p_decoy > 0 {
-        p = Params { shuffle: p.shuffle, p_flow: p.p_flow, p_invalid: p.p_invalid.max(1), p_decoy: p.p_decoy, ..Params::DIRECT };
+        p = Params { shuffle: p.shuffle, p_flow: p.p_flow, p_invalid: p.p_invalid.max(1), p_decoy: p.p_decoy, big: p.big, ..Params::DIRECT };
     }
     p
 }
@@ -181,6 +183,9 @@ fn template(t: usize) -> (Params, &'static str) {
         3 => (Params { p_merge: 8, kit: Kit::ValidRecs, ..d }, "merge-from-valid-records"),
         4 => (Params { p_merge: 8, kit: Kit::InvalidRecs, ..d }, "merge-from-invalid-records"),
         5 => (Params { p_ralias: 4, p_merge: 2, p_salias: 2, p_anchor: 4, shuffle: true, kit: Kit::Random, ..d }, "mixed-aliases-fixed-stream"),
+        6 => (Params { p_ralias: 8, kit: Kit::AllCombos, ..d }, "every-struct-through-whole-alias"),
+        7 => (Params { p_merge: 8, kit: Kit::ValidRecsAliased, ..d }, "merge-from-valid-records-of-scalar-aliases"),
+        8 => (Params { p_merge: 8, kit: Kit::InvalidRecsAliased, ..d }, "merge-from-invalid-records-of-scalar-aliases"),
         _ => unreachable!(),
     }
 }
@@ -214,7 +219,12 @@ fn replay(run: &Run, rep: &J) {
     let arrs = |v: &J| -> BTreeMap<String, Arr> {
         v.as_object().map(|o| o.iter().map(|(k, x)| (k.clone(), Arr::from_name(x.as_str().unwrap_or("")))).collect()).unwrap_or_default()
     };
-    if case["kind"] == "dupmap" {
+    if case["kind"] == "renames" {
+        let doc = case["doc"].as_str().unwrap_or("").to_string();
+        let intended = serde_saphyr::from_str::<renames::g::RenRoot>(&doc).ok().and_then(|r| serde_json::to_value(&r).ok()).unwrap_or(J::Null);
+        let d = renames::RenDoc { text: doc, viol: set(&case["viol"]), arrivals: BTreeMap::new(), intended };
+        renames::check(run, &d);
+    } else if case["kind"] == "dupmap" {
         let d = dupmap::DmDoc {
             text: case["doc"].as_str().unwrap_or("").to_string(),
             pol: dupmap::Pol::from_name(case["policy"].as_str().unwrap_or("")),
@@ -253,12 +263,14 @@ fn main() {
     }
     let tier = run.tier;
     let both = (true, true);
+    // development aid: C18_ONLY=renames,streams runs only those phases (evidence is then partial)
+    let on = |n: &str| std::env::var("C18_ONLY").map(|v| v.split(',').any(|x| x == n)).unwrap_or(true);
 
     // ---- exhaustive: every subset of violated leaves of a fixed shape x delivery templates
     let n_shapes = tier.pick(1, 2);
-    let n_templates = 6;
+    let n_templates = 9;
     let mut scope = Vec::new();
-    for si in 0..n_shapes {
+    for si in 0..(if on("exhaustive") { n_shapes } else { 0 }) {
         let counts = shape(si);
         let leaves = shape_leaves(&counts);
         let n = leaves.len();
@@ -281,10 +293,14 @@ fn main() {
                 return;
             }
             run.count(&format!("exhaustive_docs/{tname}"), 1);
-            // heavy rendering checks on a deterministic quarter of the space in quick
-            let full = tier == Tier::Thorough || mask % 4 == t % 4;
-            let only = if tier == Tier::Thorough { None } else { Some(oracle::OptVar::ALL[(mask + t) % 4]) };
-            run_single(&run, &b, 1 + idx % 13, full, both, only);
+            // heavy rendering checks on a deterministic half of the space in quick
+            let full = tier == Tier::Thorough || mask % 2 == t % 2;
+            // options variants per document: quick one in rotation; thorough two in rotation
+            // (pairs (0,3) (1,4) (2,5): default/crop 5, no-snippet/LastWins, crop 0/FirstWins)
+            let r = (mask + t) % 6;
+            let ovs = [oracle::OptVar::ALL[r], oracle::OptVar::ALL[(r + 3) % 6]];
+            let only: &[oracle::OptVar] = if tier == Tier::Thorough { &ovs } else { &ovs[..1] };
+            run_single(&run, &b, 1 + idx % 13, full, both, Some(only));
             if idx % 20011 == 0 {
                 run.sample(|| json!({"template": tname, "doc": b.doc, "violated": b.viol}));
             }
@@ -292,7 +308,7 @@ fn main() {
     }
 
     // ---- directed: decoy keys (unknown keys whose spelling collides with a validated field)
-    {
+    if on("decoys") {
         let keys = [
             ("userName", "user_name", &["user-name", "UserName", "username", "USER_NAME", "user_name"][..], &["tie", "tie", "late", "early", "early"][..]),
             ("maxCount", "max_count", &["max-count", "maxcount", "max_count", "MAXCOUNT"][..], &["tie", "late", "early", "late"][..]),
@@ -332,7 +348,7 @@ fn main() {
     }
 
     // ---- repeated keys in a map of validated values under LastWins / FirstWins
-    {
+    if on("dupmap") {
         use dupmap::{Entry, Pol};
         let lmax = tier.pick(3usize, 4usize);
         let mut specs: Vec<Vec<Entry>> = Vec::new();
@@ -388,8 +404,67 @@ fn main() {
         });
     }
 
+    // ---- observation only (outside the fixed family): validated field inside an enum payload
+    if on("decoys") {
+        for doc in ["shape: !Circle {radius: 0}\n", "shape:\n  Circle:\n    radius: 0\n", "shape: !Named x\n", "shape: {Named: x}\n"] {
+            run.eval();
+            match vcore::obs::catch(|| serde_saphyr::from_str_valid::<types::ge::EnumRoot>(doc)) {
+                Ok(Err(e)) if vcore::errs::kind(e.without_snippet()) == "ValidationError" => {
+                    if e.location().is_some() {
+                        run.count("observation/enum-payload-field-located", 1);
+                    } else {
+                        run.count("unspecified/enum-payload-field-not-located(outside the fixed family)", 1);
+                    }
+                }
+                Ok(_) => run.count("observation/enum-payload-other-outcome", 1),
+                Err(p) => run.violation(&format!("C18:panic:{}", vcore::obs::panic_site(&p)), json!({"kind": "enum-observation", "doc": doc}), p),
+            }
+        }
+    }
+
+    // ---- renamed fields under every rename_all convention
+    if on("renames") {
+        let keys = renames::yaml_keys();
+        run.note(format!("renames: YAML keys per convention (from serde): {keys:?}"));
+        // every subset of violated fields of one struct x {all direct, all through scalar aliases} x {block, flow}
+        par_range(8 * 64 * 4, |i| {
+            let (s, mask, al, fl) = (i / 256, (i / 4) % 64, i % 2 == 1, (i / 2) % 2 == 1);
+            let d = renames::build(&keys, &|s2, f| s2 == s && mask >> f & 1 == 1, &|_, _| al, i % 7, &|_| fl);
+            if reftree::parse_one(&d.text).is_none() {
+                run.inconclusive("generator-invalid: renames document");
+                return;
+            }
+            run.count("renames_exhaustive_docs", 1);
+            renames::check(&run, &d);
+            if i % 509 == 0 {
+                run.sample(|| json!({"renames": d.text, "violated": d.viol}));
+            }
+        });
+        let n_rand = tier.pick(1_500, 15_000);
+        par_range(n_rand, |i| {
+            let mut rng = Rng::stream(run.seed ^ 0x4E4A_3E00, i as u64);
+            let bits: Vec<u64> = (0..3).map(|_| rng.next_u64()).collect();
+            let p_bad = 2 + rng.below(5);
+            let mut bad = [[false; 6]; 8];
+            let mut al = [[false; 6]; 8];
+            for s in 0..8 {
+                for f in 0..6 {
+                    bad[s][f] = rng.below(12) < p_bad;
+                    al[s][f] = rng.chance(1, 3);
+                }
+            }
+            let d = renames::build(&keys, &|s, f| bad[s][f], &|s, f| al[s][f], rng.below(48), &|s| bits[0] >> s & 1 == 1);
+            if reftree::parse_one(&d.text).is_none() {
+                run.inconclusive("generator-invalid: renames document");
+                return;
+            }
+            run.count("renames_random_docs", 1);
+            renames::check(&run, &d);
+        });
+    }
+
     // ---- random single documents
-    let n_random = tier.pick(6_000, 80_000);
+    let n_random = if on("random") { tier.pick(8_000, 80_000) } else { 0 };
     par_range(n_random, |i| {
         let mut rng = Rng::stream(run.seed, i as u64);
         let Some(b) = random_single(&run, &mut rng) else { return };
@@ -405,16 +480,17 @@ fn main() {
     });
 
     // ---- streams
-    let n_streams = tier.pick(3_000, 30_000);
+    let n_streams = if on("streams") { tier.pick(3_000, 30_000) } else { 0 };
     par_range(n_streams, |i| {
         let mut rng = Rng::stream(run.seed ^ 0x5712_EA00, i as u64);
-        let k = rng.range(1, 5);
+        let k = rng.range(1, tier.pick(6, 8));
         let mut docs = Vec::new();
         // bias: make clean documents common enough that every count of failing documents 0..k occurs
         let clean_bias = rng.below(3);
         for _ in 0..k {
             let mut pr = random_params(&mut rng);
             pr.p_decoy = 0;
+            pr.big = false;
             if clean_bias == 0 || (clean_bias == 1 && rng.bool()) {
                 pr.p_invalid = 0;
                 if rng.bool() {
@@ -428,24 +504,46 @@ fn main() {
                 None => return,
             }
         }
+        // chunks: Some(j) = document j, None = a null-like document (`--- ~` or an empty one), which
+        // both the plain and the validating stream entry points skip
+        let mut chunks: Vec<Option<usize>> = Vec::new();
+        for j in 0..k {
+            if rng.chance(1, 7) {
+                chunks.push(None);
+            }
+            chunks.push(Some(j));
+        }
+        if rng.chance(1, 7) {
+            chunks.push(None);
+        }
         let mut text = String::new();
         let lead = rng.bool();
-        for (j, d) in docs.iter().enumerate() {
-            if j > 0 || lead {
-                text.push_str("---\n");
-            }
-            text.push_str(&d.doc);
-            if rng.chance(1, 6) {
-                text.push_str("...\n");
+        let mut nulls = 0u64;
+        for (ci, c) in chunks.iter().enumerate() {
+            match c {
+                None => {
+                    nulls += 1;
+                    text.push_str(if rng.bool() { "--- ~\n" } else { "---\n" });
+                }
+                Some(j) => {
+                    if ci > 0 || lead {
+                        text.push_str("---\n");
+                    }
+                    text.push_str(&docs[*j].doc);
+                    if rng.chance(1, 6) {
+                        text.push_str("...\n");
+                    }
+                }
             }
         }
         match reftree::parse_stream(&text) {
-            Ok(ds) if ds.len() == k => {}
+            Ok(ds) if ds.len() == chunks.len() => {}
             _ => {
-                run.inconclusive("generator-invalid: stream not parsed as k documents by the raw parser");
+                run.inconclusive("generator-invalid: stream not parsed as the intended documents by the raw parser");
                 return;
             }
         }
+        run.count("stream_null_like_documents", nulls);
         let s = StreamBuilt {
             text,
             viols: docs.iter().map(|d| d.viol.clone()).collect(),
@@ -461,17 +559,18 @@ fn main() {
     });
 
     let fin = Finish::new(
-        "a case (document, validation crate) is non-trivial when >= 1 constraint is violated or >= 1 validated value arrives through an alias / aliased struct / aliased list / merge; streams: >= 1 failing document; distinct by hash(text, crate)",
+        "a case (document or stream, validation crate) is non-trivial when >= 1 constraint is violated, or >= 1 validated value arrives through a scalar alias / aliased struct / aliased list / merge, or (map family) a key is repeated; streams: >= 1 failing document; distinct by hash(text, crate[, policy]). Workload: exhaustive part below + seeded random single documents (free mode: validity, shape up to 5 items x 3 sub-items, delivery, flow/block, key order, anchors, unknown `defs` key, decoy keys in alias-free documents) + seeded random streams (1..=5 quick / 1..=7 thorough documents, null-like documents and `...` interleaved) checked through from_multiple*_valid/_validate, from_slice_multiple_* and the read_* iterators",
     )
     .exhaustive(format!(
-        "every subset of violated validated leaves ({}) x 6 delivery templates (direct block, direct flow, every leaf through a scalar alias, merge from valid records, merge from invalid records, mixed aliases from a fixed PRNG stream) x both validation crates x all single-document entry points (str, slice, reader; `_with_options` entry points with default / with_snippet=false / crop_radius 0 / crop_radius 5 — thorough: all four on every document, quick: one per document in rotation)",
-        scope.join("; ")
+        "(1) main family: every subset of violated validated leaves ({}) x 9 delivery templates (direct block; direct flow; every leaf through a scalar alias; merge from valid records; merge from invalid records; mixed aliases/merges from a fixed PRNG stream; every struct through a whole-struct alias [records for every validity pattern, Inner/Item containing aliases to Leaf records]; merge from valid records whose scalars are aliases; merge from invalid records whose scalars are aliases) x {{garde, validator}} x every single-document entry point (from_str / from_slice / from_reader `_valid`/`_validate`, their `_with_options` forms, garde's `_context_valid`) with options variants default / with_snippet=false / crop_radius 0 / crop_radius 5 / duplicate_keys LastWins / FirstWins (quick: one per document in rotation; thorough: two per document in rotation; the random part runs all six on every document) x renderings: recording Localizer behind the developer formatter (snippets Off and Auto) and behind the user formatter (Auto), default Display text [quick: the three renderings + text on all entry points without options and on a fixed half of the documents for the `_with_options` ones]. (2) map family (garde): every entry list of length <= {} over 2 keys x 4 leaf-validity patterns, x name valid/invalid (fixed by index), x {{LastWins, FirstWins}} x {{block, flow}}, through from_str/_context/from_slice/from_reader `_with_options_valid` with and without snippets (+ a two-document stream through from_multiple_with_options_valid and read_with_options_valid on a quarter of them). (3) renames family: for each of the 8 rename_all conventions every subset of its 6 fields violated x {{all direct, all through scalar aliases}} x {{block, flow}} x {{garde, validator}} x {{from_str, from_reader}}. (4) directed decoy-key documents (2 fields x up to 5 decoy spellings x before/after the real key)",
+        scope.join("; "),
+        tier.pick(3, 4)
     ))
     .assume("the raw saphyr-parser event stream confirms every generated document (render_checked)")
     .assume("model guards: plain from_str value == generator's intended value, validation crate's verdict on the plain value == chosen set, mirror (Spanned) parse has a location for every violated leaf; otherwise the case is inconclusive")
     .assume("definition site is only exposed by the snippet rendering (value_comes_from_the_anchor) and by Error::locations() for the first entry; reader entry points render without snippets, so for them the definition site of the 2nd.. issue is not observable (counted as unspecified)")
     .assume("repeated keys (map of validated values, LastWins / FirstWins): garde only — validator reports map entries by iteration index (limits[0].weight), which cannot be mapped to a YAML key (unspecified); exhaustive over every entry list of length <= 3 (quick) / 4 (thorough) over 2 keys x leaf validity x {LastWins, FirstWins} x {block, flow}")
     .assume("decoy keys: when an unknown key matches the Rust field name at an earlier lookup pass than the real key the reported location is unspecified; on a tie the location may be unknown but must not be wrong")
-    .min_nontrivial(if tier == Tier::Quick { 5_000 } else { 50_000 });
+    .min_nontrivial(if tier == Tier::Quick { 50_000 } else { 300_000 });
     run.finish(fin);
 }
